@@ -129,7 +129,7 @@ META["C05"] = {
 
 META["C06"] = {
     "title": "Subjects deliver each item once, in order, to exactly the current subscribers",
-    "rule": "cases = (subject type in {Subject, SubjectThreads, MutRefItemSubject, MutRefErrSubject, MutRefItemErrSubject}, random history of length <= 12 quick / <= 30 thorough over subscribe / unsubscribe-one / next / error / complete / clone / retain / unsubscribe-subject / arm-a-subscribe-from-inside-the-callback, <= 3 regular subscribers plus nested ones). Every history is executed on the real subject and, in lock step, on a sequential multicast model (for the &mut variants the probe mutates the item/error and the model tracks the mutation chain and the value handed back to the emitter). After every step past a terminal/unsubscribe the flags is_finished/is_closed/is_empty/len are compared. Non-trivial: >= 2 subscribers and a join or leave happened between two emissions; distinct = hash(type, history). The SubjectThreads two/three-thread part is run under the baton scheduler (thread_* counters): each thread runs up to 4 of next / subscribe / unsubscribe(k) / retain()+len() / complete / error / unsubscribe-subject on clones of one subject; oracle on call/return stamps (must / must-not receive, exactly once), common order, panic, every call returned.",
+    "rule": "cases = (subject type in {Subject, SubjectThreads, MutRefItemSubject, MutRefErrSubject, MutRefItemErrSubject}, random history of length <= 12 quick / <= 30 thorough over subscribe / unsubscribe-one / next / error / complete / clone / retain / unsubscribe-subject / arm-a-subscribe-from-inside-the-callback (one newcomer, or two newcomers of which the first leaves again before the callback returns), <= 3 regular subscribers plus nested ones). Every history is executed on the real subject and, in lock step, on a sequential multicast model (for the &mut variants the probe mutates the item/error and the model tracks the mutation chain and the value handed back to the emitter). After every step past a terminal/unsubscribe the flags is_finished/is_closed/is_empty/len are compared. Non-trivial: >= 2 subscribers and a join or leave happened between two emissions; distinct = hash(type, history). The SubjectThreads two/three-thread part is run under the baton scheduler (thread_* counters): each thread runs up to 4 of next / subscribe / unsubscribe(k) / retain()+len() / complete / error / unsubscribe-subject on clones of one subject; oracle on call/return stamps (must / must-not receive, exactly once), common order, panic, every call returned.",
     "assumptions": COMMON_ASSUME + [
         "len()/is_empty() are only checked where the statement speaks (after a terminal or unsubscribe())",
         "a subscriber that joins after the subject terminated receives nothing (what the statement says: it delivers nothing after a terminal)",
